@@ -35,6 +35,32 @@ def gen_case(rng, k, prop):
     o["max_xsize"] = 120
     g = gen.TreeGen(rng, **o)
     root = g.build()
+    # cancellation gadget: a min/max (or product) whose operands are NOT constant when the tree is built but reduce
+    # to constants inside optimized() (x - x, (a+b) - (b+a), a*1 - a ...), sitting under a non-unit affine scale
+    # (negation, multiplication / division by a constant, right operand of a subtraction)
+    if rng.random() < 0.45:
+        a = g.pick_nonconst()
+        b = g.pick_nonconst()
+        kind = rng.choice(["self", "commuted", "scaled"])
+        if kind == "self":
+            z = g._emit(("bin", "sub", a, a))
+        elif kind == "commuted":
+            z = g._emit(("bin", "sub", g._emit(("bin", "add", a, b)), g._emit(("bin", "add", b, a))))
+        else:
+            z = g._emit(("bin", "sub", g._emit(("bin", "mul", a, g.const(2.0))), g._emit(("bin", "add", a, a))))
+        if rng.random() < 0.5:
+            z = g._emit(("bin", "add", z, g.const(rng.choice([0.25, -0.5, 1.0]))))
+        m = g._emit(("bin", rng.choice(["max", "min", "max", "min", "mul"]), z, g.const(rng.choice([0.5, -1.0, 2.0, 0.0]))))
+        how = rng.choice(["neg", "mulc", "divc", "rsub"])
+        if how == "neg":
+            sc = g._emit(("un", "neg", m))
+        elif how == "mulc":
+            sc = g._emit(("bin", "mul", g.const(rng.choice([3.0, -2.0, 0.5])), m))
+        elif how == "divc":
+            sc = g._emit(("bin", "div", m, g.const(rng.choice([4.0, -0.5]))))
+        else:
+            sc = g._emit(("bin", "sub", g.pick_nonconst(), m))
+        root = g._emit(("bin", rng.choice(["add", "add", "max", "mul"]), root, sc))
     L = ["case %d" % k] + g.lines
     nid = g.next
     ids = {"root": root}
